@@ -1,3 +1,4 @@
+import copyreg
 import pickle
 from typing import Iterator, List
 
@@ -240,6 +241,9 @@ class FicklingMLUnpickler(pickle.Unpickler):
         # copy the inner dicts too: user additions must never be written into ML_ALLOWLIST
         self.allowlist = {module: dict(names) for module, names in ML_ALLOWLIST.items()}
         super().__init__(*args, **kwargs)
+        # globals named by an extension code (EXT1/2/4) that an earlier unpickler already resolved are served
+        # from copyreg's process-wide cache without find_class being asked: make this unpickler ask
+        copyreg.clear_extension_cache()
         # Add additional allowed imports
         if also_allow:
             for allowed_import in also_allow:
